@@ -69,7 +69,7 @@ Proof.
   - destruct (find_expired now (leases s)) as [[j l]|] eqn:Ef; [|discriminate].
     intros E; inversion E; subst s1 i; clear E.
     apply find_index_some in Ef as [Ej Ee].
-    set (g := fun l0 : lease => set_mac l0 (copy_mac (l_mac l0) mac)).
+    set (g := fun l0 : lease => set_mac l0 mac).
     assert (Ej' : nth_error (leases (set_leases s (update_nth j g (leases s)))) j = Some (g l))
       by (apply nth_error_update_nth; auto).
     unfold measure, free_offs. rewrite blocklist_offs.
@@ -192,19 +192,13 @@ Proof.
     eapply (IH k l eq_refl Ek1 Ek2 j l'); [lia|exact Ej].
 Qed.
 
-(** * Why the theorems assume one length of hardware address in messages
+(** * Hardware addresses of different lengths
 
-    reserveLease writes the new client's address into the recycled lease with
-    copy(), which keeps the length of the old address.  The statement "one
-    lease per client in every reachable state" without [hist_ok] ... *)
-Definition one_lease_per_client_statement : Prop :=
-  forall c h, valid_conf c ->
-  NoDup (filter live (map l_mac (leases (run c h empty_state)))).
-
-(** ... is refuted: four clients fill the pool, client 1 renews, the others
-    expire, and a client whose 8-byte address 00:00:00:00:00:01:00:07 starts
-    with client 1's six bytes asks: the recycled lease of client 2 now
-    carries client 1's address, so client 1 holds two leases. *)
+    (Since repair 58b961b reserveLease replaces the address of the recycled
+    lease instead of copy()ing into it.)  Four clients fill the pool, client 1
+    renews, the others expire, and a client whose 8-byte address
+    00:00:00:00:00:01:00:07 starts with client 1's six bytes asks: it gets the
+    recycled lease under its own address, every client has one lease. *)
 Definition mixed_history : list event :=
   let t := example_now in
   let sid := Some 167772162 in
@@ -215,19 +209,15 @@ Definition mixed_history : list event :=
     ((t + 1800000000000)%Z, [], ORequest (mac6 1) None None 167772164 []);
     ((t + 3800000000000)%Z, [], ODiscover 18446744073709617159) ].
 
-Theorem mixed_hwaddr_refuted : ~ one_lease_per_client_statement.
-Proof.
-  intros H. specialize (H example_conf mixed_history).
-  assert (V : valid_conf example_conf) by (vm_compute; repeat split; congruence).
-  specialize (H V). vm_compute in H.
-  inversion H as [|? ? Hn _]. apply Hn. left. reflexivity.
-Qed.
-
-(** With [hist_ok] the statement is part of [inv_reachable_expanded]. *)
+Example mixed_history_ok :
+  hist_ok mixed_history /\
+  map l_mac (leases (run example_conf mixed_history empty_state)) =
+    [mac6 1; 18446744073709617159; mac6 3; mac6 4].
+Proof. split; [repeat constructor; vm_compute; auto|vm_compute; reflexivity]. Qed.
 
 (** * DECLINE under probing: the replacement address does not answer the probe *)
 Theorem decline_not_busy c s now busy mac reqip ci s' mt yi :
-  Inv c s -> mac_len mac = 6 ->
+  Inv c s -> valid_mac mac = true ->
   decline c now busy mac reqip ci s = (s', ROk mt yi) -> yi <> 0 -> mem_ip yi busy = false.
 Proof.
   intros I Hlen. unfold decline.
